@@ -102,7 +102,7 @@ package stree
 //@ pred chainOK(top *node[T], sp imap[*node[T]], m int) := m >= 0 && (m == 0 <==> top == nil) && (m > 0 ==> sp[0] == top && sp[m - 1].right == nil)
 //@+     && (forall k int :: {sp[k]} 0 <= k && k < m ==> sp[k] != nil && allocated(sp[k]) && inD(top, sp[k]))
 //@+     && (forall a int, b int :: {sp[a], sp[b]} 0 <= a && b == a + 1 && b < m ==> sp[a].right == sp[b])
-//@+     && (forall a int, b int :: {sp[a], sp[b]} 0 <= a && a < b && b < m ==> sp[a].cnt > sp[b].cnt)
+//@+     && (forall a int, b int :: {sp[a], sp[b]} 0 <= a && a < b && b < m ==> sp[a].cnt > sp[b].cnt && inD(sp[a].right, sp[b]))
 //@
 // treeToVine: right rotations turn the subtree into a right-leaning chain (every left link nil) of the same nodes. Each
 // rotation re-derives the ghost fields of the two nodes it moves; every other node keeps its sets (the rotated pair
@@ -132,7 +132,7 @@ package stree
 //@   loop 1: invariant [C01] frame: forall y *node[T] :: {y.left} {y.right} {y.X} {y.keys} {y.desc} {y.cnt} {y.rep} old(allocated(y)) && !(y in D0) ==> sameNode(y)
 //@   at entry: ghost vn = 0
 //@   loop 1: invariant [C01] chain: vn >= 0 && (vn == 0 <==> cur == stub) && (vn > 0 ==> vs[0] == stub.right && vs[vn - 1] == cur)
-//@   loop 1: invariant [C01] links: (forall k int :: {vs[k]} 0 <= k && k < vn ==> vs[k] != nil && vs[k] in D0 && vs[k].left == nil && !inD(cur.right, vs[k]) && vs[k].cnt == cntOf(stub.right) - k) && (forall a int, b int :: {vs[a], vs[b]} 0 <= a && b == a + 1 && b < vn ==> vs[a].right == vs[b])
+//@   loop 1: invariant [C01] links: (forall k int :: {vs[k]} 0 <= k && k < vn ==> vs[k] != nil && vs[k] in D0 && vs[k].left == nil && !inD(cur.right, vs[k]) && vs[k].cnt == cntOf(stub.right) - k) && (forall a int, b int :: {vs[a], vs[b]} 0 <= a && b == a + 1 && b < vn ==> vs[a].right == vs[b]) && (forall a int, b int :: {vs[a], vs[b]} 0 <= a && a < b && b < vn ==> inD(vs[a].right, vs[b]))
 //@   at before "cur = C": ghost vs[vn] = C
 //@   at before "cur = C": ghost vn = vn + 1
 //@   loop 1: invariant [C01] spine: cur != stub ==> forall y *node[T] :: {y in D0} y in D0 && !inD(cur.right, y) && y != cur ==> inD(y.right, cur)
@@ -175,8 +175,8 @@ package stree
 //@   loop 1: invariant [C01] stub: n != nil && n.left == nil && !(n in D0) && (next == n || next in D0) && old(allocated(n))
 //@   loop 1: invariant [C01] tree: treeOK(n.right, cmp) && cntOf(n.right) == old(cntOf(n.right)) && ((n.right == nil) == old(n.right == nil))
 //@   loop 1: invariant [C01] sets: (forall y ref :: {inD(n.right, y)} {y in D0} inD(n.right, y) <==> y in D0) && (forall k int :: {inK(n.right, k)} {k in K0} inK(n.right, k) <==> k in K0) && (forall k int :: {n.right.rep[k]} k in K0 ==> n.right.rep[k] == old(n.right.rep[k]))
-//@   loop 1: invariant [C01] rest: (forall k int :: {sp[k]} 2 * it1 <= k && k < m ==> sp[k] != nil && sp[k] in D0 && inD(next.right, sp[k]) && sp[k].cnt == old(sp[k].cnt)) && (forall a int, b int :: {sp[a], sp[b]} 2 * it1 <= a && b == a + 1 && b < m ==> sp[a].right == sp[b]) && (m > 0 && 2 * it1 < m ==> sp[m - 1].right == nil)
-//@   loop 1: invariant [C01] moved: (forall j int :: {sp[2 * j + 1]} 0 <= j && j < it1 ==> sp[2 * j + 1] != nil && sp[2 * j + 1] in D0 && !inD(next.right, sp[2 * j + 1]) && sp[2 * j + 1].cnt == old(sp[2 * j].cnt)) && (forall j int :: {sp[2 * j + 1]} 0 <= j && j + 1 < it1 ==> sp[2 * j + 1].right == sp[2 * j + 3]) && (it1 > 0 ==> n.right == sp[1]) && (it1 == 0 && m > 0 ==> n.right == sp[0])
+//@   loop 1: invariant [C01] rest: (forall k int :: {sp[k]} 2 * it1 <= k && k < m ==> sp[k] != nil && sp[k] in D0 && inD(next.right, sp[k]) && sp[k].cnt == old(sp[k].cnt)) && (forall a int, b int :: {sp[a], sp[b]} 2 * it1 <= a && b == a + 1 && b < m ==> sp[a].right == sp[b]) && (m > 0 && 2 * it1 < m ==> sp[m - 1].right == nil) && (forall a int, b int :: {sp[a], sp[b]} 2 * it1 <= a && a < b && b < m ==> inD(sp[a].right, sp[b]))
+//@   loop 1: invariant [C01] moved: (forall j int :: {sp[2 * j + 1]} 0 <= j && j < it1 ==> sp[2 * j + 1] != nil && sp[2 * j + 1] in D0 && !inD(next.right, sp[2 * j + 1]) && sp[2 * j + 1].cnt == old(sp[2 * j].cnt)) && (forall j int :: {sp[2 * j + 1]} 0 <= j && j + 1 < it1 ==> sp[2 * j + 1].right == sp[2 * j + 3]) && (it1 > 0 ==> n.right == sp[1]) && (it1 == 0 && m > 0 ==> n.right == sp[0]) && (forall j int, b int :: {sp[2 * j + 1], sp[b]} 0 <= j && j < it1 && 2 * j + 1 < b && b < m ==> inD(sp[2 * j + 1].right, sp[b]))
 //@   loop 1: invariant [C01] sealed: forall y *node[T] :: {y in D0} (y in D0 || y == n) && !inD(next.right, y) && y != next ==> !inD(next.right, y.left) && !inD(next.right, y.right)
 //@   loop 1: invariant [C01] values: forall y *node[T] :: {y.X} old(allocated(y)) ==> y.X == old(y.X)
 //@   loop 1: invariant [C01] frame: forall y *node[T] :: {y.left} {y.right} {y.X} {y.keys} {y.desc} {y.cnt} {y.rep} old(allocated(y)) && !(y in D0) && y != n ==> sameNode(y)
